@@ -97,7 +97,7 @@ CLAIMED.update({
              'relation substring(s,0,indexof(s,t)) + t is a prefix of s. Out-of-domain input must give the error result; every panic site is an obligation.',
         note='Bounds: arguments <= 6 (quick) / 9 (thorough) chars over all Unicode, numeric arguments <= 3 chars, range span <= 4. For one-line wrappers around '
              'std the model and the oracle coincide: plumbing and unit consistency are what is checked. n/a parts: calc, less_than/greater_than beyond plain integer literals (f64), '
-             'uppercase/lowercase, concat (script), replace/split. ' + TRUST,
+             'uppercase/lowercase, concat (script; C19 runs its body), split/replace with an empty pattern. ' + TRUST,
         ref='4/C16'),
 })
 
@@ -201,7 +201,8 @@ LEMMAS = {
            'live handle is unchanged, exactly one handle is added, the new collection holds exactly what the model says.',
     'C07': 'Also: utils::eval::parse (the re-serialiser behind eval, alias commands and command conditions) on an arbitrary argument vector: no panic site reachable.',
     'C16': 'Also: less_than / greater_than on plain integer literals (partial f64 model: integer literals exact, strings with a character no number literal has '
-           'are errors; fractions, exponents, inf, nan outside).',
+           'are errors; fractions, exponents, inf, nan outside); split and replace with a non-empty symbolic pattern (the pieces joined by the separator give back '
+           'the text, no piece contains the separator, replace = pieces joined by the replacement).',
 }
 for _k, _t in LEMMAS.items():
     CLAIMED[_k]['text'] += ' ' + _t
